@@ -503,7 +503,11 @@ func init() {
 					return true
 				}
 				uses := []string{"asample", "stampall", "set", "appendbuf", "reslice0", "resliceK", "none"}
-				for round := 0; round < 300; round++ {
+				rounds := 300
+				if sh[0]*sh[2] > 20000 {
+					rounds = 24
+				}
+				for round := 0; round < rounds; round++ {
 					nf := w.nfree()
 					ans := nf // New
 					switch {
@@ -561,7 +565,7 @@ func init() {
 					}
 				}
 			}
-			for _, sh := range [][3]int{{1, 0, 2}, {2, 1, 2}, {3, 1, 1}, {2, 0, 16}, {1, 5, 40}, {3, 2, 500}, {2, 0, 2500}} {
+			for _, sh := range [][3]int{{1, 0, 2}, {2, 1, 2}, {3, 1, 1}, {2, 0, 16}, {1, 5, 40}, {3, 2, 500}, {2, 0, 2500}, {3, 0, 30000}, {1, 0, 70001}} {
 				for _, t := range []int{dyn.Int8, dyn.Int32, dyn.Float64} {
 					for variant := 0; variant < 6; variant++ {
 						longRun(t, sh, variant)
